@@ -113,12 +113,14 @@ func (l *logManager) UpdateFilters() {
 	filters := make(map[string]LogLevel)
 	l.listenersMutex.RLock()
 	for _, listener := range l.listeners {
+		listener.filtersMutex.RLock()
 		for cat, l := range listener.filters {
 			previous, ok := filters[cat]
 			if !ok || l.Level < previous.Level {
 				filters[cat] = l
 			}
 		}
+		listener.filtersMutex.RUnlock()
 	}
 	l.listenersMutex.RUnlock()
 	l.providersMutex.RLock()
